@@ -480,6 +480,180 @@ func c17Replay(c *Ctx, line string) {
 	}
 }
 
+// ---- real pathname expansion (filename modes) ----------------------------------------------
+
+// The tiny tree every globbing run creates in its scratch directory, and the names it contains
+// (directories also with a trailing slash, as bash prints them for patterns that end in one).
+var c17TreeDirs = []string{"a", "x", ".d", "[", "[.a"}
+var c17TreeTop = []string{"b", "ab", "xay", ".b", "]", "a]"}
+var c17TreeIn = []string{"y", ".y", "b", "]"}
+
+func c17TreeNames() []string {
+	var out []string
+	out = append(out, c17TreeTop...)
+	for _, d := range c17TreeDirs {
+		out = append(out, d, d+"/")
+		for _, f := range c17TreeIn {
+			out = append(out, d+"/"+f)
+		}
+	}
+	return out
+}
+
+// c17GlobScript builds the tree, then expands each positional parameter as a pattern (IFS empty,
+// nullglob, globstar off) and prints "#" followed by the matches, one per line.
+func c17GlobScript(dotglob, extglob bool) string {
+	sh := "set -f\n"
+	for _, d := range c17TreeDirs {
+		sh += "mkdir -p -- " + syntaxQuote(d) + "\n"
+		for _, f := range c17TreeIn {
+			sh += ": > " + syntaxQuote(d+"/"+f) + "\n"
+		}
+	}
+	for _, f := range c17TreeTop {
+		sh += ": > " + syntaxQuote(f) + "\n"
+	}
+	sh += "set +f\nshopt -s nullglob\nshopt -u globstar failglob nocaseglob\nIFS=\n"
+	if dotglob {
+		sh += "shopt -s dotglob\n"
+	} else {
+		sh += "shopt -u dotglob\n"
+	}
+	if extglob {
+		sh += "shopt -s extglob\n"
+	} else {
+		sh += "shopt -u extglob\n"
+	}
+	sh += `for p in "$@"; do echo "#"; for f in $p; do printf '%s\n' "$f"; done; done`
+	return sh
+}
+
+func syntaxQuote(s string) string { return "'" + strings.ReplaceAll(s, "'", `'\''`) + "'" }
+
+// c17Globbable: bash only expands a word that has an unquoted `*`, `?` or a closed bracket
+// expression (other words are left as they are, backslashes included); and the comparison is only
+// meaningful for relative patterns without empty components.
+func c17Globbable(p string) bool {
+	if strings.HasPrefix(p, "/") || strings.Contains(p, "//") || p == "" {
+		return false
+	}
+	if strings.Contains(p, "\\/") {
+		return false // bash does not find the component boundary at an escaped slash (`*\/` expands to nothing)
+	}
+	rs := []rune(p)
+	for i := 0; i < len(rs); i++ {
+		switch rs[i] {
+		case '\\':
+			i++
+		case '*', '?':
+			return true
+		}
+	}
+	return false
+}
+
+type c17GlobProbe struct {
+	p    string
+	mode int
+}
+
+// c17GenTreePattern: one or two path components built from pieces that fit the tree.
+func c17GenTreePattern(r *Rand, ext bool) string {
+	atoms := []string{"a", "x", "b", "y", "ab", "*", "*", "?", "?", ".", ".d", "[ab]", "[!a]", "[a-x]", "\\[", "[[]", "[.]", "]", "\\.", "[", "[.a", "\\a", "[xy]", "[!.]", "\\*", "[]]"}
+	if ext {
+		atoms = append(atoms, "@(a|x)", "*(a|b)", "?(.)", "+([ab])", "@(*)", "?(a)")
+	}
+	comp := func() string {
+		var sb strings.Builder
+		for k := 1 + r.Intn(3); k > 0; k-- {
+			sb.WriteString(r.Pick(atoms))
+		}
+		return sb.String()
+	}
+	p := comp()
+	if r.Chance(55) {
+		p += "/" + comp()
+	}
+	if r.Chance(15) {
+		p += "/"
+	}
+	return p
+}
+
+// c17RunGlob: real pathname expansion in bash as the oracle of the filename modes
+// (Filenames|EntireString|NoGlobStar, with and without dotglob / extglob): a name of the tree
+// matches the pattern iff bash's expansion lists it.
+func c17RunGlob(c *Ctx, probes []c17GlobProbe) {
+	allNames := c17TreeNames()
+	// "d/" is an entry of the expansion only for a pattern that itself ends in a slash (bash lists
+	// directory entries; the empty name after the last slash is not one), so names with a trailing
+	// slash are compared for such patterns only.
+	namesFor := func(p string) []string {
+		var out []string
+		for _, n := range allNames {
+			if !strings.HasSuffix(n, "/") || strings.HasSuffix(p, "/") {
+				out = append(out, n)
+			}
+		}
+		return out
+	}
+	type key struct{ dot, ext bool }
+	groups := map[key][]int{}
+	for i, pr := range probes {
+		k := key{pr.mode&l3DotGlob != 0, pr.mode&l3Ext != 0}
+		groups[k] = append(groups[k], i)
+	}
+	for _, k := range []key{{false, false}, {true, false}, {false, true}, {true, true}} {
+		idx := groups[k]
+		for len(idx) > 0 {
+			n := min(len(idx), 60)
+			part := idx[:n]
+			idx = idx[n:]
+			var args []string
+			for _, i := range part {
+				args = append(args, probes[i].p)
+			}
+			r := runShell(c, "bash", c17GlobScript(k.dot, k.ext), args...)
+			c.Hist["glob:runs"]++
+			if r.TimedOut || r.Status != 0 {
+				c.Hist["glob:failed"] += len(part)
+				continue
+			}
+			blocks := strings.Split(r.Stdout, "#\n")
+			if len(blocks) != len(part)+1 {
+				c.Hist["glob:failed"] += len(part)
+				continue
+			}
+			for j, i := range part {
+				pr := probes[i]
+				names := namesFor(pr.p)
+				var hs []string
+				for _, n := range names {
+					hs = append(hs, hx(n))
+				}
+				set := map[string]bool{}
+				for _, l := range strings.Split(blocks[j+1], "\n") {
+					if l != "" {
+						set[l] = true
+					}
+				}
+				bash := l3Bits(func(n string) bool { return set[n] }, names)
+				c.Hist["glob:patterns"]++
+				c.Hist["glob:pairs"] += len(names)
+				c.Op(fmt.Sprintf("bashspec %d %s %s", pr.mode, hx(pr.p), strings.Join(hs, " ")), bash)
+				goBits := c17GoAnswer(pr.p, pr.mode, names)
+				if goBits == "malformed" {
+					continue
+				}
+				if goBits != bash {
+					w, what := c17Witness(c17Probe{pr.p, pr.mode, names}, goBits, bash)
+					c.Fail(w, what+" (pathname expansion)")
+				}
+			}
+		}
+	}
+}
+
 // ---- generators ----------------------------------------------------------------------------
 
 // c17GenBracket builds a (mostly valid) bracket expression and one character it should match.
@@ -769,4 +943,35 @@ func c17(c *Ctx) {
 		}
 	}
 	c17RunBash(c, probes)
+
+	// real pathname expansion for the filename modes
+	var gprobes []c17GlobProbe
+	addGlob := func(p string, mode int) {
+		if !c17Globbable(p) || !l3ShellSafe(p) {
+			return
+		}
+		in := l3Analyze(p, mode)
+		if len(c17Known(in, p, mode)) > 0 || c17BashOdd(in, p, mode) || in.unclosedBracket {
+			return
+		}
+		gprobes = append(gprobes, c17GlobProbe{p, mode})
+	}
+	globModes := []int{l3Files | l3Entire | l3NoStar, l3Files | l3Entire | l3NoStar | l3DotGlob,
+		l3Files | l3Entire | l3NoStar | l3Ext, l3Files | l3Entire | l3NoStar | l3DotGlob | l3Ext}
+	if c.Shard == 0 {
+		for _, p := range c17FilenameEdges {
+			for _, m := range globModes {
+				addGlob(p, m)
+			}
+		}
+	}
+	ng := 160
+	if c.Thorough() {
+		ng = 600
+	}
+	for i := 0; i < ng; i++ {
+		m := globModes[c.R.Intn(len(globModes))]
+		addGlob(c17GenTreePattern(c.R, m&l3Ext != 0), m)
+	}
+	c17RunGlob(c, gprobes)
 }
